@@ -1,8 +1,24 @@
-(* C03 -- placeholder while the model is validated; replaced by the theorems. *)
+(* C03 -- Routing trees are loop-free, connected and use only live hardware.
+   Property theorems only; each is closed by `exact` of a lemma of Proofs/Route*.v.
+
+   What is proved for ALL inputs (U) and what is certified per instance (V):
+   * V  C03_check_tree_sound / C03_check_connected_sound: the two validators evaluated inside Coq by
+        ./check on every real output of route() are sound for the property's sentence (ValidTree) and for
+        "all working chips reach each other over working links" (Connected).
+   The universal theorems about the model of ner_net follow below as they are closed. *)
 From Coq Require Import ZArith List Bool.
-Require Import Rig.Model.Base Rig.Model.Route Rig.Spec.Route.
+Require Import Rig.Model.Base Rig.Model.Route Rig.Spec.Route Rig.Proofs.Route.
 Import ListNotations.
 Open Scope Z_scope.
 
-Example C03_placeholder : check_connected {| rm_w := 2; rm_h := 2; rm_dead_chips := []; rm_dead_links := [] |} = true.
-Proof. vm_compute. reflexivity. Qed.
+(* V: a tree accepted by the validator satisfies the property's sentence, for every machine, source chip,
+   sink requirements and tree. *)
+Theorem C03_check_tree_sound :
+  forall m src sinks t, check_tree m src sinks t = true -> ValidTree m src sinks t.
+Proof. exact check_tree_sound. Qed.
+
+(* V: a machine accepted by the connectivity validator has all working chips mutually reachable over
+   working links (so MachineHasDisconnectedSubregion is not a permitted outcome on it). *)
+Theorem C03_check_connected_sound :
+  forall m, check_connected m = true -> Connected m.
+Proof. exact check_connected_sound. Qed.
